@@ -23,7 +23,8 @@ RULE = ("Each run: Clusters (n_clusters 2..4, KMeans / MiniBatchKMeans) over a c
         "partial_fit, arm changes and restarts; queries under seeded schedules and random partitions (deterministic "
         "policies) or at n_jobs=1 with sampler replay (randomised TreeBandit policies).")
 EXPECTED_PROBES = ["probe.clusters", "probe.treebandit", "probe.arm_without_observations", "probe.after_partial_fit",
-                   "probe.after_arm_change", "probe.leaf_with_several_rewards", "probe.tree_sampler_replayed"]
+                   "probe.after_arm_change", "probe.leaf_with_several_rewards", "probe.tree_sampler_replayed",
+                   "probe.split_threshold_queried"]
 INT32MAX = np.iinfo(np.int32).max
 
 
@@ -199,9 +200,46 @@ def execute(case, ctx):
                 if d:
                     ctx.violate("tree-leaf", step, {"diff": d, "query": Q})
                     return
+                # boundary probe: queries placed ON a split threshold of a fitted tree and one float64 ulp above it (the
+                # tree compares single-precision feature values; "the same leaf as the query" is the leaf the tree itself
+                # assigns). Asked on a copy, so the primary's streams do not move.
+                Qb = _threshold_queries(P.mab._imp, arms, Q[0])
+                if Qb:
+                    B = P.clone()
+                    gc = clone_rng(B.mab._imp.rng)
+                    gc.randint(INT32MAX, size=len(Qb))
+                    rb = B.apply({"op": "expect", "Q": Qb})
+                    if rb[0] != "ok":
+                        ctx.violate("query-raised", step, {"res": rb, "boundary": Qb})
+                        return
+                    gotb = rb[1] if len(Qb) > 1 else [rb[1]]
+                    wantb, _ = _tree_expectations(B, cfg, by_arm, Qb, gc, False)
+                    ctx.fired("probe.split_threshold_queried")
+                    ctx.fired("oracle.comparisons")
+                    d = diff(wantb, gotb, rtol, atol)
+                    if d:
+                        ctx.violate("tree-leaf", step, {"diff": d, "query": Qb, "boundary": True})
+                        return
         if op.get("restart"):
             P = P.clone(op["restart"])
             ctx.fired("fault.restart")
+
+
+def _threshold_queries(imp, arms, base, cap=6):
+    out = []
+    for a in arms:
+        tree = imp.arm_to_tree.get(a)
+        t = getattr(tree, "tree_", None)
+        if t is None:
+            continue
+        for f, thr in zip(t.feature, t.threshold):
+            if f < 0 or len(out) >= cap:
+                continue
+            for v in (float(thr), float(np.nextafter(thr, np.inf))):
+                q = [float(x) for x in base]
+                q[int(f)] = v
+                out.append(q)
+    return out[:cap]
 
 
 def _lints_params(cfg, arms, members, q, cluster_lp, rtol, atol):
